@@ -6,7 +6,9 @@ A buffer is an unbounded tape of rows seen through a window of `h` rows starting
 at `top`; the tape is a function `row → col → char` (32 = blank) so that screen
 theorems are pointwise. Autowrap follows xterm: printing in the last column
 sets the pending-wrap flag, the next printable wraps; CR/CUU/CUB/CUP clear it;
-EL/ED erase from the cursor column. No reflow on resize.
+EL/ED erase from the cursor column. No reflow on resize. Escape sequences
+inside content (SGR styling) take no cell: only `Ansi.visible` of a text is printed
+(cell attributes are not modelled).
 Cross-checked on every run against an independent Go interpreter (`vt` stream).
 -/
 namespace Tea.VT
@@ -70,7 +72,7 @@ def cupRow (h : Nat) (b : Buf) (row : Nat) : Buf :=
   { b with cr := b.top + r - 1, cc := 0, pw := false }
 
 def applyBuf (w h : Nat) (b : Buf) : TermOp → Buf
-  | .text s => s.foldl (putChar w h) b
+  | .text s => (Ansi.visible s).foldl (putChar w h) b
   | .cr => { b with cc := 0, pw := false }
   | .lf => lineFeed h { b with pw := false }
   | .cuu n => { b with cr := if b.cr - countOr1 n < b.top then b.top else b.cr - countOr1 n, pw := false }
@@ -108,14 +110,16 @@ def apply (t : Term) : TermOp → Term
 
 def applyOps (t : Term) (ops : List TermOp) : Term := ops.foldl apply t
 
-/-- the terminal is resized (no reflow): the active buffer's rows are cut, its cursor clamped -/
+/-- the terminal is resized (no reflow): the active buffer's rows are cut at the new width, the
+rows that fall below the new bottom of the window are dropped (they come back blank if the
+window grows again, as on a real terminal's alternate screen), its cursor is clamped -/
 def resize (t : Term) (w h : Nat) : Term :=
   let b := t.buf
   let b := { b with
     cc := if b.cc > w - 1 then w - 1 else b.cc
     cr := if b.cr > b.top + h - 1 then b.top + h - 1 else b.cr
     pw := false
-    cells := fun r c => if c ≥ w then 32 else b.cells r c }
+    cells := fun r c => if c ≥ w ∨ r ≥ b.top + h then 32 else b.cells r c }
   ({ t with w := w, h := h, maxw := max t.maxw w } : Term).setBuf b
 
 end Tea.VT
